@@ -87,3 +87,16 @@ Print Assumptions C14_and_refines.
 Print Assumptions C14_or_refines.
 Print Assumptions C14_and_invariant.
 Print Assumptions C14_cache_irrelevant.
+
+(** ** whole programs with the crate's own recursions (and_i + memo cache, or_i, restrict_i, simplify_pv_i,
+    complexify_pv_i on ids; Interner/InternI.v): they observe exactly what the abstract programs observe, and
+    therefore nothing of the history - neither of the arena nor of the memo cache *)
+From PV Require Import Interner.OpsModel Interner.InternI Interner.InternIProofs.
+Theorem C14_real_run_observes_abstract : forall (pv pfv : N) (w : list mop),
+  observe (forget (mrun_i pv pfv init_i w)) = observe (mrun pv pfv init w).
+Proof. exact mrun_i_observe. Qed.
+Theorem C14_hist_indep_real : forall (pv pfv : N) (h w : list mop),
+  observe (forget (mrun_i pv pfv (fresh_i (mrun_i pv pfv init_i h)) w)) = observe (mrun pv pfv init w).
+Proof. exact hist_indep_i. Qed.
+Print Assumptions C14_real_run_observes_abstract.
+Print Assumptions C14_hist_indep_real.
